@@ -32,7 +32,7 @@ TSlotNode == [s \in {"A", "A2", "B", "B2", "C", "C2", "U"} |->
                 CASE s \in {"A", "A2"} -> "n1" [] s \in {"B", "B2"} -> "n2" [] s \in {"C", "C2"} -> "n3" [] OTHER -> "none"]
 TMaxReq == [c \in TClients |-> 1000]
 
-Stimuli == {"send", "answer", "bclose", "cclose", "expire"}
+Stimuli == {"send", "answer", "bclose", "cclose", "expire", "wake"}
 Ignored == {"open", "ready", "skip", "end", "noiter", "tick", "rawsend", "sclose", "openfail", "sendfail", "answerauto"}
 Line == TraceLog[l]
 
@@ -56,7 +56,7 @@ Reset ==
   /\ tasks' = <<>> /\ ttree' = <<>> /\ expired' = {}
   /\ bq' = [n \in Nodes |-> <<>>] /\ b2p' = [n \in Nodes |-> <<>>]
   /\ bclosed' = [n \in Nodes |-> FALSE] /\ nclose' = 0 /\ hops' = <<>>
-  /\ phase' = "poll" /\ ready' = {} /\ woke' = FALSE /\ seen' = <<>> /\ halted' = FALSE /\ ntask0' = 0 /\ stale' = FALSE
+  /\ phase' = "poll" /\ ready' = {} /\ seen' = <<>> /\ halted' = FALSE /\ efd' = FALSE /\ wcall' = FALSE /\ wread' = FALSE
   /\ mon' = MonInit /\ out' = <<>> /\ sched' = <<>>
   \* connection set-up (accept iterations) up to the "ready" line is not modelled
   /\ LET r == CHOOSE j \in l..Len(TraceLog) : TraceLog[j].ev \in {"ready", "end"} /\ \A k \in l..(j-1) : TraceLog[k].ev \notin {"ready", "end"}
@@ -69,6 +69,7 @@ Stim ==
   /\ LET e == Line IN
        \/ e.ev = "send" /\ CliSend(e.c, [k |-> e.k, slots |-> e.slots])
        \/ e.ev = "cclose" /\ CliClose(e.c)
+       \/ e.ev = "wake" /\ (IF efd THEN UNCHANGED vars ELSE Wake)
        \/ e.ev = "bclose" /\ BkClose(e.n)
        \/ /\ e.ev = "answer" /\ e.fid # ""
           /\ bq[e.n] # <<>> /\ Head(bq[e.n]) = <<e.c, e.i, e.toks[1].s>>      \* same oldest command as the real node
@@ -92,7 +93,7 @@ IterAt == CHOOSE j \in l..Len(TraceLog) : TraceLog[j].ev = "iter" /\ \A k \in l.
 \* callbacks run in the order epoll reported the fds (the logged "seen" sequence, without wake-up fd and listener)
 LoggedOrder == LET e == TraceLog[IterAt] IN
                SelectSeq([x \in DOMAIN e.seen |-> <<e.seen[x].k, IF e.seen[x].k = "s" THEN e.seen[x].node ELSE e.seen[x].n>>],
-                         LAMBDA y : y[1] \in {"c", "s"})
+                         LAMBDA y : y[1] \in {"c", "s", "W"})
 DoneFds == [x \in DOMAIN seen |-> <<seen[x][1], seen[x][2]>>]
 \* the fd whose callback may run now: the one in progress, else the next logged one
 \* (IF-THEN-ELSE, not disjunction: inside an action TLC evaluates every disjunct)
@@ -107,6 +108,7 @@ Micro ==
   /\ \/ \E c \in Clients : MayRun(<<"c", c>>) /\ CbClientReadOne(c)
      \/ \E c \in Clients : MayRun(<<"c", c>>) /\ ClientAbort(c)
      \/ \E n \in Nodes : MayRun(<<"s", n>>) /\ CbServerReadOne(n)
+     \/ MayRun(<<"W", "">>) /\ ReadWake
      \/ EndCallbacks
      \/ RunTasks
   /\ UNCHANGED tvars
